@@ -37,6 +37,14 @@
 //!   2 s wall clock as fallback; `<op>` is one of `open alloc_bytes(8) alloc_bytes(<cap/8>)
 //!   alloc_bytes(16) drop discard_freelist`; `bad:<reason>` is `cursor`, `bytes:h<H>`,
 //!   `overlap:<op>` or `panic:<op>`;
+//! * whole-arena ops (`clear`, `rewind start|end|cur V`): every handle of the case is invalidated when the
+//!   FIRST atomic access of the op is granted (the crash point taken before that grant still has the handles
+//!   in its shadow map; every later one has none), or when the op returns if it made no access. Invalidated
+//!   handles are detached and parked until the tear-down of the case (an owned one keeps its reference on the
+//!   arena until then: `rf=` does not go down); a handle that is inside a running op of ANOTHER thread at that
+//!   moment (an allocation that has not returned yet, a `drop` …) is invalidated when that op gives it back.
+//!   The id of an invalidated handle may be re-used by a later allocation (like the id of a dropped handle).
+//!   A malformed `clear` / `rewind` is `bad-op` and invalidates nothing;
 //! * a malformed case prints `bad-case <reason>` and nothing else.
 
 use super::*;
@@ -227,16 +235,36 @@ impl<A: Flavour> Case<A> {
 /// What all threads share. Accessed without a lock: only one thread runs at a time, and never
 /// across an arena call.
 struct Shared {
+  /// handles invalidated by `clear` / `rewind`: detached, never used again, dropped at the tear-down of the
+  /// case. Declared BEFORE `case` on purpose: fields drop in declaration order, so the (detached) owned handles
+  /// release their arena clones while the arena values of `case` are still alive.
+  zombies: Vec<Slot<Arena>>,
   case: Case<Arena>,
   /// handle id -> byte of the last successful `fill`
   fills: HashMap<u32, u8>,
   /// arena id -> number of borrowed handles of it that are inside a running op
   busy: HashMap<u32, u32>,
+  /// number of invalidations (`clear` / `rewind` ops that started) so far
+  inval: u64,
 }
 
 #[derive(Clone, Copy)]
 struct ShPtr(*mut Shared);
 unsafe impl Send for ShPtr {}
+
+/// `clear` / `rewind start|end|cur V` with well-formed arguments (exactly what the executor accepts): the ops
+/// that invalidate every handle of the case
+fn is_whole_arena_op(t: &[&str]) -> bool {
+  match (t[0], t.len()) {
+    ("clear", 1) => true,
+    ("rewind", 3) => match t[1] {
+      "start" | "end" => t[2].parse::<u32>().is_ok(),
+      "cur" => t[2].parse::<i64>().is_ok(),
+      _ => false,
+    },
+    _ => false,
+  }
+}
 
 impl Shared {
   fn borrowed(&self, aid: u32) -> bool {
@@ -260,6 +288,37 @@ impl Shared {
         ((cap > 0).then_some((off, off + cap)), format!("r=ok v={}", ok as u8))
       }
       _ => (None, "r=nohandle".to_string()),
+    }
+  }
+
+  /// `clear` / `rewind` started: every handle of the case is detached and forgotten (no shadow-map entry, not
+  /// verified by `lv`, later `drop H` / `dealloc H` / `fill H` / `verify H` answer `r=nohandle`).
+  /// Performs no arena call (detaching only sets a flag; the slots are kept in `zombies`).
+  fn invalidate_all(&mut self) {
+    self.inval += 1;
+    let mut ids: Vec<u32> = self.case.handles.keys().copied().collect();
+    ids.sort();
+    for h in ids {
+      if let Some(mut slot) = self.case.handles.remove(&h) {
+        slot.detach();
+        self.zombies.push(slot);
+      }
+    }
+    self.fills.clear();
+  }
+
+  /// Moves the slots a scratch executor gives back into the shared table. `gen0` is the value of `inval` when
+  /// the op started: a handle that was inside a running op of ANOTHER thread while a `clear` / `rewind` started
+  /// is invalidated as well.
+  fn put_back(&mut self, gen0: u64, hs: HashMap<u32, Slot<Arena>>) {
+    for (id, mut slot) in hs {
+      if self.inval != gen0 {
+        slot.detach();
+        self.fills.remove(&id);
+        self.zombies.push(slot);
+      } else {
+        self.case.handles.insert(id, slot);
+      }
     }
   }
 
@@ -368,6 +427,9 @@ thread_local! {
   static UNMOUNT: Cell<u32> = const { Cell::new(0) };
   /// real ranges (arena offsets) zero-filled by the arena during the current op (Hook::zero)
   static ZEROS: RefCell<Vec<(usize, usize)>> = const { RefCell::new(Vec::new()) };
+  /// a `clear` / `rewind` of this thread has not yet performed its first atomic access: the handles of the case
+  /// are invalidated when that access is granted (or when the op returns without having made one)
+  static INVAL: Cell<Option<ShPtr>> = const { Cell::new(None) };
   static REC_STEPS: Cell<u64> = const { Cell::new(0) };
   static REC_MAX: Cell<u64> = const { Cell::new(REC_LIMIT) };
   static REC_TX: RefCell<Option<Sender<Msg>>> = const { RefCell::new(None) };
@@ -478,6 +540,9 @@ impl Hook for SchedHook {
           }
           if let St::Granted(sp) = g.th[tid].st {
             g.th[tid].st = St::Running;
+            drop(g);
+            // first granted access of a `clear` / `rewind`: the op starts now (this thread is the one that runs)
+            invalidate_pending();
             return if sp && a.kind == Kind::CasWeak { Decision::SpuriousFail } else { Decision::Proceed };
           }
         }
@@ -544,6 +609,14 @@ impl Hook for SchedHook {
   }
 }
 
+/// Performs the invalidation a `clear` / `rewind` of this thread announced, if it is still pending.
+fn invalidate_pending() {
+  if let Some(sh) = INVAL.with(|c| c.take()) {
+    // SAFETY: only one thread runs at a time (the caller was just granted a step, or is between two parks)
+    unsafe { (*sh.0).invalidate_all() };
+  }
+}
+
 /// appends lines to the output of the running case (worker threads and the controller)
 fn emit(epoch: u64, s: &str) {
   let mut g = gl();
@@ -574,13 +647,12 @@ fn thread_op(sh: ShPtr, tid: usize, aid: u32, line: &str) -> String {
       if dup {
         "bad-op".to_string()
       } else {
+        let gen0 = unsafe { (*sh.0).inval };
         let mut sc = Case::scratch(aid, my_arena);
         let body = sc.body(line);
         let (_, _, hs) = sc.dismantle();
         let s = unsafe { &mut *sh.0 };
-        for (id, slot) in hs {
-          s.case.handles.insert(id, slot);
-        }
+        s.put_back(gen0, hs);
         // `alloc_aligned_bytes::<T>(n)` does not zero, except for a zero-sized `T` without alignment (or n = 0),
         // which the crate routes to `alloc_bytes`
         let cleared = !t[0].starts_with("alloc_aligned")
@@ -594,6 +666,7 @@ fn thread_op(sh: ShPtr, tid: usize, aid: u32, line: &str) -> String {
       }
     }
     "fill" | "drop" | "detach" | "dealloc" => {
+      let gen0 = unsafe { (*sh.0).inval };
       let mut sc = Case::scratch(aid, my_arena);
       let mut range = None;
       let mut busy = None;
@@ -612,9 +685,7 @@ fn thread_op(sh: ShPtr, tid: usize, aid: u32, line: &str) -> String {
       let body = sc.body(line);
       let (_, _, hs) = sc.dismantle();
       let s = unsafe { &mut *sh.0 };
-      for (id, slot) in hs {
-        s.case.handles.insert(id, slot);
-      }
+      s.put_back(gen0, hs);
       if let Some(a) = busy {
         if let Some(n) = s.busy.get_mut(&a) {
           *n = n.saturating_sub(1);
@@ -627,11 +698,29 @@ fn thread_op(sh: ShPtr, tid: usize, aid: u32, line: &str) -> String {
       }
       body
     }
-    "discard_freelist" | "set_minseg" | "inc_discarded" => {
+    "discard_freelist" | "set_minseg" | "inc_discarded" | "flush" => {
       let mut sc = Case::scratch(aid, my_arena);
       let body = sc.body(line);
       let _ = sc.dismantle();
       body
+    }
+    // whole-arena ops: every handle of the case is invalidated at the START of the op, i.e. when its first
+    // atomic access is granted (`Hook::before`) or, if it makes none, right here
+    "clear" | "rewind" => {
+      if !is_whole_arena_op(&t) {
+        "bad-op".to_string()
+      } else {
+        // `clear` of a read-only arena (never built by this binary) answers `ReadOnly` and touches nothing
+        let noop = t[0] == "clear" && unsafe { (*my_arena).read_only() };
+        if !noop {
+          INVAL.with(|c| c.set(Some(sh)));
+        }
+        let mut sc = Case::scratch(aid, my_arena);
+        let body = sc.body(line);
+        let _ = sc.dismantle();
+        invalidate_pending();
+        body
+      }
     }
     "clone" => {
       let c = if t.len() == 2 { parse_id(1) } else { None };
@@ -725,6 +814,7 @@ fn unmount_line(tid: usize) -> String {
 fn worker(sh: ShPtr, epoch: u64, tid: usize, ops: Vec<String>) {
   ROLE.with(|r| r.set(Role::Worker { epoch, tid }));
   UNMOUNT.with(|u| u.set(0));
+  INVAL.with(|c| c.set(None));
   let aid = THREAD_ARENA_BASE + tid as u32;
   let cur = Cell::new(0usize);
   let r = catch_unwind(AssertUnwindSafe(|| {
@@ -836,7 +926,13 @@ pub fn run_case(sc: &SchedCase, tmp: &Path, case_no: u64) -> Outcome1 {
     }
     return done(out);
   };
-  let sh = ShPtr(Box::into_raw(Box::new(Shared { case, fills: HashMap::new(), busy: HashMap::new() })));
+  let sh = ShPtr(Box::into_raw(Box::new(Shared {
+    zombies: Vec::new(),
+    case,
+    fills: HashMap::new(),
+    busy: HashMap::new(),
+    inval: 0,
+  })));
   let shared = || unsafe { &mut *sh.0 };
 
   // ---- pre ops: sequential, main thread, hook not armed --------------------------------------
@@ -861,7 +957,13 @@ pub fn run_case(sc: &SchedCase, tmp: &Path, case_no: u64) -> Outcome1 {
             None => "r=panic".to_string(),
           }
         }
-        _ => s.case.exec(line),
+        _ => {
+          // whole-arena ops: nobody observes the arena in the middle of a `pre` op, so "at the start" is "before"
+          if is_whole_arena_op(&t) && !(t[0] == "clear" && s.case.cur().read_only()) {
+            s.invalidate_all();
+          }
+          s.case.exec(line)
+        }
       }
     };
     s.note(&t, &ans);
